@@ -277,6 +277,30 @@ def run(R):
         R.ok("C03.project", "one-row", "one Row per admitted input row", rows[0].loc())
     else:
         R.violation("C03.project", "one-row", "select execute builds %d rows per input row" % len(rows), [sf.loc()])
+    # ---- evaluated on that row alone: no state that survives from one row to the next
+    R.rule("C03.pure", "expression evaluation keeps no state between rows: no thread-local / static mutable state and no write through "
+                       "its arguments in the evaluation subgraph")
+    ereach = P.reachable([f])
+    stateful = []
+    for k in sorted(ereach):
+        g = P.fns[k]
+        if g.derived:
+            continue
+        for i, s_ in g.stmts():
+            if s_["rv"]["k"] == "tls":
+                stateful.append((g, "thread-local `%s`" % s_["rv"].get("def", "?").split("::")[-1], s_["line"]))
+        for c in g.calls:
+            sn = short(c.name)
+            if re.search(r"std::thread::local::LocalKey|lazy_static::lazy::Lazy<.*(Mutex|RefCell|RwLock)|std::sync::(poison::)?mutex::Mutex::lock|core::cell::RefCell::borrow_mut", sn):
+                stateful.append((g, sn, c.line))
+    mut_statics = [st for st in P.statics if re.search(r"Mutex|RefCell|RwLock|Cell<|Atomic", st["ty"])]
+    if stateful:
+        g, what, line = stateful[0]
+        R.violation("C03.pure", "evaluate|state|" + what.split("::")[-1][:40],
+                    "%s uses %s: a value computed for one row can influence a later row (the query is no longer evaluated on each row alone)"
+                    % (g.path, what), ["%s:%d" % (g.file, line)])
+    else:
+        R.ok("C03.pure", "evaluate-subgraph", "%d functions, no thread-local / lock / RefCell state" % len(ereach), f.loc())
     R.floor("C03.cmp", 6)
     R.assume("that each function / cast / EXTRACT computes the documented value is not decided; comparisons of same-typed values are Value's "
              "derived order (C16)")
